@@ -12,6 +12,8 @@ pub struct KnownEntry {
     pub signature: String,
     pub region: String,
     pub replay: String,
+    /// probe campaign that reproduces it (optional; tells two findings with one signature apart)
+    pub campaign: String,
     pub what: String,
 }
 
@@ -47,6 +49,7 @@ impl Known {
                     signature: String::new(),
                     region: String::new(),
                     replay: String::new(),
+                    campaign: String::new(),
                     what: what.trim().to_string(),
                 };
                 for tok in head.split_whitespace() {
@@ -57,6 +60,7 @@ impl Known {
                             "signature" => e.signature = v.to_string(),
                             "region" => e.region = v.to_string(),
                             "replay" => e.replay = v.to_string(),
+                            "campaign" => e.campaign = v.to_string(),
                             _ => {}
                         }
                     }
@@ -73,6 +77,17 @@ impl Known {
 
     pub fn for_property<'a>(&'a self, id: &'a str) -> impl Iterator<Item = &'a KnownEntry> + 'a {
         self.entries.iter().filter(move |e| e.property == id)
+    }
+
+    /// Like `find`, preferring the entry whose replay file or probe campaign is `ctx` (two
+    /// findings may share a signature)
+    pub fn find_ctx(&self, id: &str, sig: &str, ctx: &str) -> Option<&KnownEntry> {
+        let mut it = self.entries.iter().filter(|e| e.property == id && sig_matches(&e.signature, sig));
+        let all: Vec<&KnownEntry> = it.by_ref().collect();
+        all.iter()
+            .copied()
+            .find(|e| !ctx.is_empty() && ((!e.replay.is_empty() && e.replay.ends_with(ctx)) || e.campaign == ctx))
+            .or(all.first().copied())
     }
 
     /// The known entry (of this property) matching a failure signature, if any
